@@ -180,6 +180,19 @@ def run(tier):
     for p in plans:
         if p.get("rand_place"):
             p["base"] = p["reps"]
+    # long real-OS runs: workloads that trim and regrow in every repetition, 2000 repetitions, nothing
+    # logged per call (calls are still checked by the recorder), a mark every 100 repetitions; three
+    # series per run, each judged by SteadyState: growth of VmSize, NUMBER OF MAPPINGS of the process
+    # (one mapping = 8 KiB: tolerance 8 mappings; an orphaned page is a mapping of its own), bytes held
+    # from the OS that the allocator does not account for (VmSize growth - its own footprint)
+    big_blk = classes[-1]
+    cyc = [[big_blk], [classes[0], big_blk], [classes[1], classes[3], big_blk], [big_blk, big_blk],
+           [classes[2], big_blk], [classes[3], classes[0], big_blk]]
+    n_long_reps = 2000 if quick else 6000
+    for i, blocks in enumerate(cyc):
+        real_plans.append({"kind": "work", "blocks": blocks, "free": "fifo" if blocks == [big_blk, big_blk] else "lifo",
+                           "reps": n_long_reps, "base": n_long_reps // 200, "mark_every": 100, "real": True, "quiet": True,
+                           "series": True, "spacers": i % 3 == 2, "watchdog": 600, "src": "real-os-long"})
     # debug build (assertions on) for the TLC workloads, release build for the rest;
     # processed in chunks so that memory stays bounded
     jobs = [("debug", bin_dbg, plans[:n_tlc]), ("release", bin_rel, plans[n_tlc:])]
@@ -269,6 +282,7 @@ def run(tier):
         "NoGratuitousMap: an OS request is gratuitous if size + 2 x align + 256 bytes fit into one block-free extent of a single OS-granted piece",
         "real-OS runs (raw syscall wrappers against the real kernel): footprint = growth of the process' VmSize, which also contains whatever the recorder itself maps (its output buffer is pre-reserved); only SteadyState is judged there (60 repetitions, baseline 30)",
         "SteadyState is judged only where the OS policy is the same in every repetition (always below / above / disjoint); runs with a random placement per mapping are judged by Envelope, NoGratuitousMap, ReleaseOnce only",
+        "long real-OS runs (2000 repetitions, marks every 100): only the three footprint series (VmSize growth, number of mappings at 8 KiB each, VmSize growth minus the allocator's own footprint) are judged, by SteadyState; the calls themselves are checked by the recorder but not logged",
         "never trimming alone does not violate the property as stated (held memory stays bounded by peak demand) and is not flagged",
         "multi-threaded runs: 2-4 std threads share one Dlmalloc behind tiny_std::sync::Mutex (lock, one call, unlock; the recorder sits in the same critical section so the log order is the execution order) - the composition of the private GlobalDlMalloc wrapper, which itself is only compiled with feature global-allocator and cannot be enabled in a std-linked harness (the real wrapper is exercised by the add-on part global_allocator_part in a no-libc probe); thread interleavings are whatever the OS scheduler produces (not controlled), therefore SteadyState is not judged on these runs (the concurrent demand differs between repetitions), Envelope / NoGratuitousMap / ReleaseOnce are",
     ]
